@@ -25,4 +25,20 @@ def main():
             summ['%s|%s|%s' % (d['kind'], json.dumps(d.get('call'))[:120], ','.join(d.get('fields', [])))] += 1
         for k, v in summ.most_common(8):
             print('    ', v, k)
+        if os.environ.get('SCAN_SHOW'):
+            seen = set()
+            for d in divs:
+                k = '%s|%s' % (json.dumps(d.get('call'))[:120], ','.join(d.get('fields', [])))
+                if k in seen or d['kind'] != 'diverged':
+                    continue
+                seen.add(k)
+                print('  ---', d['phase'], d['step'], json.dumps(d['call'])[:200], d['fields'], 'dev', d.get('dev'), 'before', d.get('dev_before'))
+                for f in d['fields']:
+                    top = f.split('.')[0]
+                    print('     %s spec: %s' % (f, json.dumps(d['expected'].get(top))[:700]))
+                    print('     %s code: %s' % (f, json.dumps(d['observed'].get(top))[:700]))
+                for st in (d.get('steps') or [])[:d['step']]:
+                    print('        ', json.dumps({a: b for a, b in st.items() if a not in ('p', 'dev')})[:200], st['p']['r']['c'])
+                if len(seen) >= int(os.environ.get('SCAN_SHOW')):
+                    break
 main()
